@@ -346,7 +346,7 @@ def run(ctx):
     if nd is not None:
         # duration() takes state 2 of the duration model and returns all its Gaussians
         cbs = p.nested(nd.path)
-        okk = any("get_parameter(" in show(ExprBuilder(cb).local(0)) and ", 2, " in show(ExprBuilder(cb).local(0)) for cb in cbs)
+        okk = any("get_parameter(" in show(ExprBuilder(cb).local(0)) and re.search(r", 2(\{\w+\})?, ", show(ExprBuilder(cb).local(0))) for cb in cbs)
         if okk:
             ctx.ok("C01-R4", "duration(): the duration model's state-2 tree gives the per-state Gaussians", nd.loc())
         else:
@@ -444,7 +444,7 @@ def r6(ctx, p, cg, K):
         if r:
             ctx.ok("C01-R6", "T1 %s  %s" % (s.key, s.detail[:100]), s.loc(), r)
             continue
-        ent = T2.get(s.key)
+        ent = ledger.t2_lookup(T2, s)
         if ent:
             used.add(s.key)
             reason = ent[1]
@@ -571,54 +571,44 @@ def _label_loop_form(b, eb):
 
 
 # ---- R8: no 0/0 "out of nothing": float divisions by an integer count
-FDIV_T2 = {
-    # key: fdiv|function|divisor shape -> reason
-    "fdiv|mlpg_adjust::mlpg::MlpgGlobalVariance::<'a>::calc_hmmobj_derivative|(Mul(self.mtx.win_size, self.mtx.length) as f64)":
-        "called only from parmgen behind gv_length != 0 (checked: caller guard on gv_length); gv_length counts entries of gv_switch, whose length is mtx.length (C12-R3/R4), so length >= 1; win_size = windows.size() >= 1 for every loaded stream (a stream without windows fails to parse)",
-    "fdiv|mlpg_adjust::mlpg::MlpgGlobalVariance::<'a>::next_step|(Mul(self.mtx.win_size, self.mtx.length) as f64)":
-        "as calc_hmmobj_derivative: behind parmgen's gv_length != 0",
-    "fdiv|mlpg_adjust::mlpg::MlpgGlobalVariance::<'a>::next_step|(self.mtx.length as f64)":
-        "behind parmgen's gv_length != 0, and gv_length <= mtx.length",
-    "fdiv|mlpg_adjust::mlpg::MlpgGlobalVariance::<'a>::next_step|(Mul(self.mtx.length, self.mtx.length) as f64)":
-        "behind parmgen's gv_length != 0, and gv_length <= mtx.length",
-    "fdiv|model::interporation_weight::Weights::average|(nvoices as f64)":
-        "nvoices = VoiceSet::len() >= 1: VoiceSet::new rejects an empty list (C19-R1)",
-    "fdiv|vocoder::Vocoder::synthesize::{closure#0}|(^*self.fperiod as f64)":
-        "fperiod >= 1: set_fperiod stores max(v, 1) and load_model takes the voice's frame period, itself validated >= 1 ... the increment is computed per frame only",
-    "fdiv|vocoder::Vocoder::synthesize::{closure#2}|(^*self.fperiod as f64)":
-        "as the other filter family",
-    "fdiv|vocoder::excitation::Excitation::start|(fperiod as f64)":
-        "both call sites pass self.fperiod of the Vocoder, which Engine::generator takes from condition.fperiod >= 1 (C20-R1: set_fperiod stores max(v, 1); load_model copies the voice's validated frame period)",
-    "fdiv|vocoder::lsp::LineSpectralPairs::check_lsp_stability|(len(self) as f64)":
-        "len(self) = vector_length of the spectrum stream >= 1 (SpeechGenerator::new receives non-empty rows; an empty spectrum is rejected by the voice metadata check)",
-}
+FDIV_T2 = [
+    # (enclosing function: the site may sit in it or in a closure nested in it, regex on the count
+    #  expression with captured variables resolved to their values, reason)
+    ("mlpg_adjust::mlpg::MlpgGlobalVariance::<'a>::calc_hmmobj_derivative", r"^Mul\(self\.mtx\.win_size, self\.mtx\.length\)$",
+     "called only from parmgen behind gv_length != 0; gv_length counts entries of gv_switch, whose length is mtx.length (C12-R3/R4), so length >= 1; win_size = windows.size() >= 1 for every loaded stream"),
+    ("mlpg_adjust::mlpg::MlpgGlobalVariance::<'a>::next_step", r"^Mul\(self\.mtx\.win_size, self\.mtx\.length\)$|^self\.mtx\.length$|^Mul\(self\.mtx\.length, self\.mtx\.length\)$",
+     "behind parmgen's gv_length != 0, and gv_length <= mtx.length; win_size >= 1"),
+    ("model::interporation_weight::Weights::average", r"^nvoices$",
+     "nvoices = VoiceSet::len() >= 1: VoiceSet::new rejects an empty list (C19-R1)"),
+    ("vocoder::Vocoder::synthesize", r"^self\.fperiod$",
+     "fperiod >= 1: set_fperiod stores max(v, 1) (C20-R1) and load_model takes the voice's frame period"),
+    ("vocoder::excitation::Excitation::start", r"^fperiod$",
+     "both call sites pass self.fperiod of the Vocoder, which Engine::generator takes from condition.fperiod >= 1 (C20-R1)"),
+    ("vocoder::lsp::LineSpectralPairs::check_lsp_stability", r"^len\(self\)$",
+     "len(self) = vector_length of the spectrum stream >= 1"),
+]
 
 
 # float divisors that are not counts: key fdiv|function|ordinal -> (shape regex, reason)
-FDIV_T2F = {
-    "fdiv|duration::DurationEstimator::create|0":
-        (r"^speed$", "speed >= 1e-6: set_speed stores max(v, 1e-6) (C20-R1) and the default is 1"),
-    "fdiv|duration::DurationEstimator::estimate_duration_with_frame_length|0":
-        (r"Iterator::sum\(duration_params\)\.1$", "sum of the state duration variances of the group; ASSUMPTION (voice-format fact): duration variances of a voice are positive"),
-    "fdiv|duration::DurationEstimator::estimate_duration_with_frame_length::{closure#0}|0":
-        (r"^arg3\.1$", "a state's duration variance; same voice-format assumption"),
-    "fdiv|label::Labels::load_from_strings|0":
-        (r"^Mul\(\(fperiod as f64\), 10000000\.0\)$", "fperiod >= 1 (C20-R1), so the divisor is >= 1e7"),
-    "fdiv|mlpg_adjust::mlpg::MlpgGlobalVariance::<'a>::next_step|0":
-        (r"^Sub\(Mul\(Mul\(Neg\(1\.0\{W1\}\)", "quasi-Newton step size 1/h: h is a sum of data-dependent terms, zero only by exact cancellation - numerical, not `out of nothing` (not decided)"),
-    "fdiv|mlpg_adjust::mlpg::MlpgGlobalVariance::<'a>::next_step|1":
-        (r"^Sub\(Mul\(Mul\(Neg\(1\.0\{W1\}\)", "as above (the switched-off arm)"),
-    "fdiv|vocoder::cepstrum::MelCepstrum::postfilter_mcp|0":
-        (r"CoefficientsT::b2en\(", "e2 = sum ir^2 with ir[0] = exp(c0) > 0 (C14-R5), so e2 > 0"),
-    "fdiv|vocoder::cepstrum::MelGeneralizedCepstrum::mgc2mgc|0":
-        (r"^Sub\(1\.0, Mul\(self\.alpha, ", "1 - a*b with a, b in [0, 1] (C20-R1 clamp) and a != b (dominating guard): a*b < 1"),
-    "fdiv|vocoder::lsp::LineSpectralPairs::postfilter_lsp|0":
-        (r"^Add\(Mul\(Mul\(beta, Sub\(self\[", "d1^2 + d2^2 with d = beta * (difference of adjacent line spectral frequencies), beta > 0 (dominating guard): zero only if three adjacent frequencies coincide, i.e. outside the stable range the finiteness clause is conditioned on"),
-    "fdiv|vocoder::lsp::LineSpectralPairs::postfilter_lsp|1":
-        (r"LineSpectralPairs::lsp2en\(self\)$", "en2 = sum of squares of an impulse response whose first tap is the gain term > 0"),
-    "fdiv|vocoder::lsp::LineSpectralPairs::postfilter_lsp|2":
-        (r"LineSpectralPairs::lsp2en\(self\)$", "as above (log-gain arm)"),
-}
+FDIV_T2F = [
+    # (enclosing function - the site may sit in it or in any closure nested in it, shape regex, reason)
+    ("duration::DurationEstimator::create", r"^speed$",
+     "speed >= 1e-6: set_speed stores max(v, 1e-6) (C20-R1) and the default is 1"),
+    ("duration::DurationEstimator::estimate_duration_with_frame_length", r"Iterator::sum\(duration_params\)\.1$|^%\d+$|^arg\d(\.\d)*\.1$",
+     "a duration variance (of one state, or summed over the group); ASSUMPTION (voice-format fact): duration variances of a voice are positive"),
+    ("label::Labels::load_from_strings", r"^Mul\(\(fperiod as f64\), 10000000\.0\)$",
+     "fperiod >= 1 (C20-R1), so the divisor is >= 1e7"),
+    ("mlpg_adjust::mlpg::MlpgGlobalVariance::<'a>::next_step", r"^Sub\(Mul\(Mul\(Neg\(1\.0\{W1\}\)",
+     "quasi-Newton step size 1/h: h is a sum of data-dependent terms, zero only by exact cancellation - numerical, not `out of nothing` (not decided)"),
+    ("vocoder::cepstrum::MelCepstrum::postfilter_mcp", r"CoefficientsT::b2en\(",
+     "e2 = sum ir^2 with ir[0] = exp(c0) > 0 (C14-R5), so e2 > 0"),
+    ("vocoder::cepstrum::MelGeneralizedCepstrum::mgc2mgc", r"^Sub\(1\.0, Mul\(self\.alpha, ",
+     "1 - a*b with a, b in [0, 1] (C20-R1 clamp) and a != b (dominating guard): a*b < 1"),
+    ("vocoder::lsp::LineSpectralPairs::postfilter_lsp", r"^Add\(Mul\(Mul\(beta, Sub\(self\[",
+     "d1^2 + d2^2 with d = beta * (difference of adjacent line spectral frequencies), beta > 0 (dominating guard): zero only if three adjacent frequencies coincide, i.e. outside the stable range the finiteness clause is conditioned on"),
+    ("vocoder::lsp::LineSpectralPairs::postfilter_lsp", r"LineSpectralPairs::lsp2en\(self\)$",
+     "en2 = sum of squares of an impulse response whose first tap is the gain term > 0"),
+]
 
 
 def _positive_guard_f(gs, xs):
@@ -691,13 +681,17 @@ def r8(ctx, p, cg, K):
                 if _positive_guard_f(paths.guards(b, bb, eb), ds):
                     ctx.ok("C01-R8", "T1 %s: division by %s is dominated by a test that it is non-zero" % (cm.short(path), ds[:60]), loc)
                     continue
-                ent = FDIV_T2F.get(fkey)
                 site = ledger.Site("fdiv", path, ds[:300], "", st["span"], bb, st, b)
-                if ent and re.search(ent[0], site.shape()):
-                    usedf.add(fkey)
+                ent = None
+                for k_, (fnp, rx, why_) in enumerate(FDIV_T2F):
+                    if (path == fnp or path.startswith(fnp + "::")) and re.search(rx, site.shape()):
+                        ent = (k_, why_)
+                        break
+                if ent:
+                    usedf.add(ent[0])
                     ctx.ok("C01-R8", "T2 %s  / %s" % (fkey, ds[:80]), loc, ent[1])
                     continue
-                ctx.fail("C01-R8", path, "float division " + ("(audited shape changed) " if ent else "") + ds[:50], "division by %s with no proof that it is non-zero (no dominating test, not audited): a zero divisor here turns finite values into inf/NaN out of nothing" % ds[:160], loc)
+                ctx.fail("C01-R8", path, "float division " + ds[:50], "division by %s with no proof that it is non-zero (no dominating test, not audited): a zero divisor here turns finite values into inf/NaN out of nothing" % ds[:160], loc)
                 continue
             n += 1
             X = den[2]
@@ -734,20 +728,33 @@ def r8(ctx, p, cg, K):
                 ctx.ok("C01-R8", "T1 %s: every call site (transitively) is dominated by %s != 0" % (cm.short(path), xs), loc)
                 continue
             key = "fdiv|%s|%s" % (path, show(den))
-            if key in FDIV_T2:
-                used.add(key)
-                ctx.ok("C01-R8", "T2 " + key, loc, FDIV_T2[key])
+            from ..expr import resolve_upvars
+            xr = show(resolve_upvars(p, b, X)) if b.kind == "Closure" else xs
+            enc = b
+            n_ = 0
+            while enc is not None and enc.kind == "Closure" and n_ < 6:
+                enc = p.bodies.get(enc.parent)
+                n_ += 1
+            encp = enc.path if enc is not None else path
+            hit = None
+            for k_, (fnp, rx, why_) in enumerate(FDIV_T2):
+                if encp == fnp and re.search(rx, xr):
+                    hit = (k_, why_)
+                    break
+            if hit:
+                used.add(hit[0])
+                ctx.ok("C01-R8", "T2 " + key, loc, hit[1])
                 continue
             ctx.fail("C01-R8", path, "float division by count " + show(den)[:60], "division by (%s as f64) with no proof that the count is non-zero (no dominating guard here or at the call sites, not audited): an empty frame set would give 0/0 = NaN out of nothing" % xs, loc)
     ctx.anchor("C01-R8", "float divisions by an integer count in K", n, 8)
     ctx.anchor("C01-R8", "float divisions by a non-constant float in K", nf, 10)
     ctx.assume("voice-format fact used by C01-R8: the duration variances of a voice are positive")
-    for k in FDIV_T2F:
-        if k not in usedf:
-            ctx.note("FDIV_T2F entry not matched by any site: " + k)
-    for k in FDIV_T2:
-        if k not in used:
-            ctx.note("FDIV_T2 entry not matched by any site: " + k)
+    for k_, ent_ in enumerate(FDIV_T2F):
+        if k_ not in usedf:
+            ctx.note("FDIV_T2F entry not matched by any site: %s /%s/" % (ent_[0], ent_[1]))
+    for k_, ent_ in enumerate(FDIV_T2):
+        if k_ not in used:
+            ctx.note("FDIV_T2 entry not matched by any site: %s /%s/" % (ent_[0], ent_[1]))
 
 
 def r7(ctx, p):
